@@ -145,6 +145,13 @@ def enumerate_cases(tier):
         {"op": "pow", "base": {"op": "CRX", "p": [0.9], "w": [0, 1]}, "z": 3},
         {"op": "adjoint", "base": {"op": "adjoint", "base": {"op": "SX", "p": [], "w": [2]}}},
         {"op": "MultiControlledX", "p": [], "w": [0, 1, 2, 3], "kw": {"control_values": [1, 0, 1]}},
+        # wrappers with control-on-zero: the symbolic rules (flip_control_adjoint, controlled(rule), pow of controlled) must carry
+        # the control values through
+        {"op": "ctrl", "base": {"op": "adjoint", "base": {"op": "RX", "p": [0.7], "w": [1]}}, "cw": [0], "cv": [0]},
+        {"op": "ctrl", "base": {"op": "adjoint", "base": {"op": "S", "p": [], "w": [2]}}, "cw": [0, 1], "cv": [0, 1]},
+        {"op": "adjoint", "base": {"op": "ctrl", "base": {"op": "RY", "p": [0.4], "w": [1]}, "cw": [0], "cv": [0]}},
+        {"op": "ctrl", "base": {"op": "pow", "base": {"op": "T", "p": [], "w": [1]}, "z": 3}, "cw": [2], "cv": [0]},
+        {"op": "ctrl", "base": {"op": "IsingXX", "p": [0.6], "w": [1, 2]}, "cw": [0], "cv": [0]},
     ]
     sets = [{"names": ["CNOT", "GlobalPhase", "RX", "RY", "RZ"], "form": "str"},
             {"names": ["CNOT", "GlobalPhase", "RX", "RY", "S"], "form": "type"}]
